@@ -30,6 +30,27 @@ fn big_body() -> Vec<u8> {
     (0..BIG_LEN).map(|i| b'A' + (i % 23) as u8).collect()
 }
 
+// ------------------------------------------------- scheduling-lag monitor --
+
+/// moments at which a 20 ms sleep of the monitor thread took more than 400 ms longer: the
+/// machine is so loaded that neither the scripted peers nor sozu's thread run on time, and
+/// what a request observed in such a window says nothing about sozu
+static LAGS: Mutex<Vec<Instant>> = Mutex::new(Vec::new());
+
+fn start_lag_monitor() {
+    thread::spawn(|| loop {
+        let t = Instant::now();
+        thread::sleep(Duration::from_millis(20));
+        if t.elapsed() > Duration::from_millis(420) {
+            LAGS.lock().unwrap().push(Instant::now());
+        }
+    });
+}
+
+fn lagged_since(t0: Instant) -> bool {
+    LAGS.lock().unwrap().iter().any(|t| *t >= t0)
+}
+
 // ------------------------------------------------------------- scenario --
 
 #[derive(Clone, Debug, PartialEq)]
@@ -977,11 +998,21 @@ impl Area for Faults {
             run.out = ops.iter().map(|_| "bad-op".to_string()).collect();
             return run;
         };
-        let mut world = match build_world(&setup) {
-            Ok(w) => w,
-            Err(e) => {
-                run.oracle.push(("rig-setup-failed".into(), format!("{e}")));
-                return run;
+        // (ephemeral ports can run out for a moment when several rig users share the machine)
+        let mut attempt = 0;
+        let mut world = loop {
+            match build_world(&setup) {
+                Ok(w) => break w,
+                Err(e) if attempt < 5 => {
+                    attempt += 1;
+                    run.tags.push("rig-setup-retried".into());
+                    let _ = e;
+                    thread::sleep(Duration::from_millis(1500));
+                }
+                Err(e) => {
+                    run.oracle.push(("rig-setup-failed".into(), format!("{e}")));
+                    return run;
+                }
             }
         };
         run.out.push("ok".into());
@@ -1092,6 +1123,17 @@ impl Area for Faults {
                 }
                 continue;
             }
+            let by = by.unwrap_or_else(|| bystander(front));
+            if lagged_since(t0) {
+                run.tags.push("inconclusive:machine-overloaded".into());
+                run.out.push("obs inconclusive".into());
+                if let Some(c) = conn.take() {
+                    c.close();
+                }
+                // whatever state the session is in, the next request starts afresh
+                world.flt.accept_close.store(0, Ordering::SeqCst);
+                continue;
+            }
             run.tags.push(format!("outcome:{kind}"));
             run.out.push(format!(
                 "obs {tok} framing={} got={} hits={} t={}ms",
@@ -1100,7 +1142,6 @@ impl Area for Faults {
                 world.flt.hits(r.i),
                 o.t_done.as_millis()
             ));
-            let by = by.unwrap_or_else(|| bystander(front));
             // ------------------------------------------------ property oracles --
             let what = format!("{} -> {tok} (framing {}, {} body bytes, end {}, {:?})", fmt_req(&r), o.framing, o.body.len(), o.end, o.t_done);
             let reuses_stalled = stalled_backend && is_flt(&r) && r.client == "full";
@@ -1245,6 +1286,7 @@ impl Area for Faults {
 
 fn main() {
     silence_worker_panics();
+    start_lag_monitor();
     let args = parse_args();
     if args.extra.contains_key("probe") {
         // print what the real worker does for the corpus (no model)
@@ -1282,11 +1324,14 @@ fn main() {
     if !args.out.is_empty() && args.replay.is_none() {
         if let Ok(txt) = std::fs::read_to_string(&args.out) {
             if let Ok(mut v) = serde_json::from_str::<serde_json::Value>(&txt) {
-                let inc = v["distribution"]["inconclusive:backend-not-scheduled"].as_u64().unwrap_or(0);
+                let inc: u64 = v["distribution"]
+                    .as_object()
+                    .map(|m| m.iter().filter(|(k, _)| k.starts_with("inconclusive:")).filter_map(|(_, n)| n.as_u64()).sum())
+                    .unwrap_or(0);
                 let n = v["evaluations"].as_u64().unwrap_or(0);
                 if inc * 20 > n.max(20) {
                     let f = serde_json::json!({"kind": "oracle", "class": "too-many-inconclusive-cases",
-                        "detail": format!("{inc} of {n} cases had a request the scripted backend never got to read before sozu's back timer fired"),
+                        "detail": format!("{inc} inconclusive requests in {n} cases (machine overloaded: scripted peers or sozu not scheduled on time)"),
                         "case": -1, "ops": [], "impl_out": [], "model_out": []});
                     if let Some(a) = v["failures"].as_array_mut() {
                         a.push(f);
